@@ -8,7 +8,9 @@
      1. obj.__conform__(I)             decides if it returns non-None or raises; a missing
                                        __conform__ (AttributeError on access), a None attribute, a None
                                        result and the depth-0 TypeError of an unbound method pass
-     2. I.providedBy(obj)              decides (returns obj) if true
+     2. I.providedBy(obj)              decides (returns obj) if true; an overridden providedBy
+                                       (nearest definition along the chain) is asked instead of the
+                                       built-in check, delegating up the chain with super()
      3. adapter_hooks[0](I, obj), adapter_hooks[1](I, obj), ...   each decides if it returns non-None or raises
      4. the alternate                  decides if it was given
    A custom __adapt__ (nearest definition along the interface's inheritance chain) takes the
@@ -54,24 +56,34 @@ Fixpoint hook_steps (i : nat) (hs : list hook) : list step :=
   | h :: t => hook_step i h :: hook_steps (S i) t
   end.
 
-Definition default_steps (o : obj) : list step :=
-  provided_step (provides o) :: hook_steps 0 (hooks o).
+(* [pdefs]: the providedBy overrides visible from the interface, nearest first *)
+Fixpoint prov_steps (pdefs : list (nat * pbeh)) (o : obj) : list step :=
+  match pdefs with
+  | [] => [provided_step (provides o)]
+  | (i, PBTrue) :: _ => [([EvCustomProv i], Yield ReturnObj)]
+  | (i, PBFalse) :: _ => [([EvCustomProv i], Pass)]
+  | (i, PBRaise e) :: _ => [([EvCustomProv i], Yield (RaiseE (User e)))]
+  | (i, PBDelegate) :: rest => ([EvCustomProv i], Pass) :: prov_steps rest o
+  end.
+
+Definition default_steps (pdefs : list (nat * pbeh)) (o : obj) : list step :=
+  prov_steps pdefs o ++ hook_steps 0 (hooks o).
 
 (* [defs]: the custom __adapt__ definitions visible from the interface, nearest first *)
-Fixpoint adapt_steps (defs : list (nat * cbeh)) (o : obj) : list step :=
+Fixpoint adapt_steps (defs : list (nat * cbeh)) (pdefs : list (nat * pbeh)) (o : obj) : list step :=
   match defs with
-  | [] => default_steps o
+  | [] => default_steps pdefs o
   | (i, CANone) :: _ => [([EvCustom i], Pass)]
   | (i, CAValue v) :: _ => [([EvCustom i], Yield (Return v))]
   | (i, CARaise e) :: _ => [([EvCustom i], Yield (RaiseE (User e)))]
-  | (i, CADelegate) :: rest => ([EvCustom i], Pass) :: adapt_steps rest o
+  | (i, CADelegate) :: rest => ([EvCustom i], Pass) :: adapt_steps rest pdefs o
   end.
 
 Definition alternate_step (a : option nat) : step :=
   ([], match a with Some _ => Yield ReturnAlt | None => Pass end).
 
-Definition steps (defs : list (nat * cbeh)) (o : obj) : list step :=
-  conform_step (conf o) :: adapt_steps defs o ++ [alternate_step (alternate o)].
+Definition steps (defs : list (nat * cbeh)) (pdefs : list (nat * pbeh)) (o : obj) : list step :=
+  conform_step (conf o) :: adapt_steps defs pdefs o ++ [alternate_step (alternate o)].
 
 (* decision of the first step that does not pass, with the actions performed until then *)
 Fixpoint first_yield (l : list step) : list ev * sres :=
@@ -92,13 +104,20 @@ Fixpoint custom_defs (i : nat) (chain : list lvl) : list (nat * cbeh) :=
   | l :: t => custom_defs (S i) t ++ match l_adapt l with Some b => [(i, b)] | None => [] end
   end.
 
+(* likewise the providedBy overrides *)
+Fixpoint prov_defs (i : nat) (chain : list lvl) : list (nat * pbeh) :=
+  match chain with
+  | [] => []
+  | l :: t => prov_defs (S i) t ++ match l_prov l with Some b => [(i, b)] | None => [] end
+  end.
+
 (* I(obj[, alternate]) for the last interface of [chain]: (actions performed, outcome) *)
 Definition spec (chain : list lvl) (o : obj) : list ev * outcome :=
-  let (lg, r) := first_yield (steps (custom_defs 0 chain) o) in (lg, decide r).
+  let (lg, r) := first_yield (steps (custom_defs 0 chain) (prov_defs 0 chain) o) in (lg, decide r).
 
 (* I.__adapt__(obj): the same without the conform and alternate steps; Pass = returns None *)
 Definition spec_adapt (chain : list lvl) (o : obj) : list ev * sres :=
-  first_yield (adapt_steps (custom_defs 0 chain) o).
+  first_yield (adapt_steps (custom_defs 0 chain) (prov_defs 0 chain) o).
 
 (* A registry's adapter_hook installed in adapter_hooks (adapter.py LookupBase.adapter_hook /
    queryAdapter: `queryAdapter(obj, I)` *is* `adapter_hook(I, obj)`): the hook answers what
@@ -108,6 +127,10 @@ Definition registry_hook (q : option nat) : hook :=
 
 (* a step has no opinion *)
 Definition passes (s : step) : Prop := snd s = Pass.
+
+(* the provided-check (built-in or overridden) does not say "provided" and does not raise *)
+Definition provided_passes (pdefs : list (nat * pbeh)) (o : obj) : bool :=
+  match snd (first_yield (prov_steps pdefs o)) with Pass => true | Yield _ => false end.
 
 (* the conform step has no opinion *)
 Definition conform_passes (c : conform) : bool :=
